@@ -60,7 +60,8 @@ fn emit(out: &mut Out, bytes: &[u8], opts: usize, level: usize, label: &str) {
     out.case("C06", call("total", vec![Sx::S(bytes.to_vec()), z(opts as i128), z(level as i128)]), obs, "prop:total", true);
     out.count(&format!("{label}{}", if bad { ":BAD" } else { "" }));
     // on ASCII input the reader model predicts the whole outcome (structure, metadata, diagnostics)
-    if bytes.is_ascii() && !bad && bytes.len() < 20_000 {
+    // (once: the profile with overflow checks reads the same inputs)
+    if !cfg!(debug_assertions) && bytes.is_ascii() && !bad && bytes.len() < 20_000 {
         let (obs, _) = crate::c01::read_obs_format(bytes, Format::Mmcif, opts, level);
         out.case("C06", call("read", vec![z(opts as i128), z(level as i128), Sx::S(bytes.to_vec())]), obs, "corr:reader-model", true);
     }
